@@ -23,7 +23,8 @@ OTHER_NAMES = ['flag', 'z', 'o', 'L', 'D', 'f1', 'f2', 'call']
 ALL_NAMES = INT_NAMES + STR_NAMES + FLOAT_NAMES + DEC_NAMES + DATE_NAMES + OTHER_NAMES
 
 INT_VALUES = [0, 1, 2, 3, -1, -2, 5, 7, -7, 9, -9, 4, 10, 100, -13]
-STR_VALUES = ['', 'a', 'ab', 'Ab ', "it's", 'x{y}', u'\xe9', 'a\\b', '%s', 'q"r', ' b', 'A1', '7']
+STR_VALUES = ['', 'a', 'ab', 'Ab ', "it's", 'x{y}', u'\xe9', 'a\\b', '%s', 'q"r', ' b', 'A1', '7',
+              u'\u0416\u0443\u043a', u'na\xefve \u2603', u'\U0001f40d']     # ascii() != repr() != str() for the non-ASCII ones
 FLOAT_VALUES = [0.0, 0.5, -1.5, 2.25, 1000.0, 0.1, -0.0, 3.0, 1e-3]
 DEC_VALUES = ['1.25', '-0.5', '10', '0.001', '0', '2.50', '-7.75']
 DATE_VALUES = [[2020, 1, 31], [2020, 2, 29], [2019, 12, 31], [2021, 3, 1], [2000, 1, 1], [2024, 7, 15]]
@@ -440,6 +441,8 @@ class Gen(object):
             except SyntaxError:          # a production embedded a sub-expression without parentheses (generator bug):
                 node = ast.Name('s', ast.Load())       # keep going with a plain name
             conv = self.pick([-1, -1, -1, ord('r'), ord('s'), ord('a')])
+            if typ == 'str' and self.coin(3):
+                conv = ord('a')                                   # ascii() differs from repr() for non-ASCII text
             if typ in ('str', 'dec', 'date') and self.coin(3):
                 conv = ord('r')                                   # where repr() differs from str()
             spec = None
@@ -643,3 +646,24 @@ def mixed_queries(draw):
         return 'elt', t
     t = normalise(g.mixed_cond(draw(st.integers(1, 3))))
     return 'cond', t
+
+
+@st.composite
+def chain_queries(draw):
+    """a condition over x with external parts, to be stacked on its own result (see c04_core.judge_chain)"""
+    g = Gen(draw, allow_lambda=False)
+    c = draw(st.integers(0, 5))
+    E = lambda: P(g.t_int(draw(st.integers(0, 2))))
+    if c == 0:
+        t = 'x.i != %s' % E()
+    elif c == 1:
+        t = 'x.i >= %s - 1 and x.i <= %s + 1' % (E(), E())
+    elif c == 2:
+        t = '%s %s %s' % (P(g.mixed_int(1)), g.pick(['!=', '<', '<=', '>', '>=', '!=']), E())
+    elif c == 3:
+        t = 'x.i not in (%s, %s)' % (g.t_int(1), g.t_int(1))
+    elif c == 4:
+        t = 'x.s + %s != %s' % (P(g.t_str(1)), P(g.t_str(1)))
+    else:
+        t = g.mixed_cond(1)
+    return normalise(t)
